@@ -613,6 +613,9 @@ func runC01(c *core.Ctx) {
 	// with C03)
 	c.Doc("names-order", 1, "New(names...)[i] = ForName(listing, names[i])")
 	namesOrderRule(c)
+	// a selection the caller derives lenses from keeps the order the caller gave it (shared with C03)
+	c.Doc("listing-immutable", 1, "no function of hseq writes into, sorts or copies onto a listing it was given")
+	listingImmutable(c)
 }
 
 func effRule(w bool) string {
